@@ -348,12 +348,15 @@ var ruleCfgG3 = &Rule{
 var ruleCfgG4 = &Rule{
 	Name:    "CFG/G4-guard-emission-agreement",
 	NeedSSA: true,
-	Text:    "wherever an InsertError / InsertRelateError of a constant diagnostic type X executes only on the 'not ignored' side of GConfig.IsGlobalIgnoreErrType(Y) (nested if, or early return), Y == X: otherwise switching Y off also removes X's diagnostics",
+	Text:    "wherever an InsertError / InsertRelateError of a constant diagnostic type X executes only on the 'not ignored' side of GConfig.IsGlobalIgnoreErrType(Y) or GConfig.IsIgnoreErrorFile(file, Y) (nested if, or early return), Y == X: otherwise switching Y off also removes X's diagnostics",
 	Run: func(c *Ctx) []Ob {
 		var obs []Ob
 		nEm, nGuarded := 0, 0
 		for _, f := range c.ModFns() {
 			guards := ignoreGuards(f, "IsGlobalIgnoreErrType", 1)
+			// IsIgnoreErrorFile(file, Y) is true whenever Y is switched off globally: an emission of X behind its
+			// "not ignored" side is gated by Y's switch as well
+			guards = append(guards, ignoreGuards(f, "IsIgnoreErrorFile", 2)...)
 			cnt := map[string]int{}
 			for _, b := range f.Blocks {
 				for _, ins := range b.Instrs {
